@@ -231,6 +231,12 @@ inductive Op where
   | plusLit (l : Loc) (path : List Acc) (a : List Word)
   /-- `dst = src.cast<Other>().cast<S>()` : each coefficient through `conv`, order kept -/
   | castRt (dst src : Loc)
+  /-- read through the CONST overload of an accessor chain: the coefficients of the sub-part
+      `src.path` (of a `Map<const G>`, a const value or `std::as_const(Map<G>)`) are copied out into
+      the first words of `dst` -/
+  | readSub (dst src : Loc) (path : List Acc)
+  /-- `log()` of the sub-part seen through the const accessor chain, stored in the first words of `dst` -/
+  | readLog (dst src : Loc) (path : List Acc)
   deriving Inhabited
 
 /-- the location and accessor path an op writes through -/
@@ -242,20 +248,44 @@ def Op.dst : Op → Loc × List Acc
   | .mulLoc d _ => (d, [])
   | .plusLit l p _ => (l, p)
   | .castRt d _ => (d, [])
+  | .readSub d _ _ => (d, [])
+  | .readLog d _ _ => (d, [])
 
 /-- the second operand location, if any -/
 def Op.src : Op → Option Loc
   | .assign _ s => some s
   | .mulLoc _ s => some s
   | .castRt _ s => some s
+  | .readSub _ s _ => some s
+  | .readLog _ s _ => some s
+  | _ => none
+
+/-- the words the second operand is read from: a whole `G` view, or — for the const sub-view reads —
+    the sub-range the accessor chain resolves to -/
+def Op.srcRange (d : GDesc) : Op → Option (Nat × Nat)
+  | .assign _ s => some (s.off, repSize d)
+  | .mulLoc _ s => some (s.off, repSize d)
+  | .castRt _ s => some (s.off, repSize d)
+  | .readSub _ s p => (resolve d s p).map (fun t => (t.off, t.len))
+  | .readLog _ s p => (resolve d s p).map (fun t => (t.off, t.len))
   | _ => none
 
 /-- the resolved target of an op, provided the destination is writable (a `Map<const G>` has
     no mutating member: such an op does not exist in C++ and is the identity here) -/
 def Op.target (d : GDesc) (op : Op) : Option Target :=
-  match resolve d op.dst.1 op.dst.2 with
-  | some t => if t.writable then some t else none
-  | none => none
+  match op with
+  | .readSub dst s p =>
+    match resolve d s p with
+    | some t => if dst.writable then some ⟨dst.off, t.len, t.desc, true⟩ else none
+    | none => none
+  | .readLog dst s p =>
+    match resolve d s p with
+    | some t => if dst.writable then some ⟨dst.off, dofSize t.desc, t.desc, true⟩ else none
+    | none => none
+  | op =>
+    match resolve d op.dst.1 op.dst.2 with
+    | some t => if t.writable then some t else none
+    | none => none
 
 /-- the words an op writes: the views `[off, off+len)` it is allowed to touch -/
 def Op.writeSet (d : GDesc) (op : Op) : List (Nat × Nat) :=
@@ -277,6 +307,8 @@ def opValue (conv : Word → Word) (G : LieModel α) (op : Op) (cur src : List W
   | .mulLoc _ _ => valCompose G cur src
   | .plusLit _ _ a => valPlus G cur a
   | .castRt _ _ => src.map conv
+  | .readSub _ _ _ => src
+  | .readLog _ _ _ => wordsOfVec (G.log (vecOfWords G.rep src))
 
 /-- one step of the script interpreter -/
 def step (conv : Word → Word) (d : GDesc) (op : Op) (b : Buf) : Buf :=
@@ -284,8 +316,8 @@ def step (conv : Word → Word) (d : GDesc) (op : Op) (b : Buf) : Buf :=
   | none => b
   | some t =>
     let cur := load b t.off t.len
-    let src := match op.src with
-      | some s => load b s.off (repSize d)
+    let src := match op.srcRange d with
+      | some r => load b r.1 r.2
       | none => []
     write b t.off ((opValue (α := α) conv (GDesc.model t.desc) op cur src).take t.len)
 
